@@ -3,6 +3,7 @@ package spec
 import (
 	"fmt"
 	"math/rand"
+	"regexp"
 )
 
 // Planted defects for C09: each function takes a valid spec and returns a
@@ -57,7 +58,21 @@ func (s *Spec) TypeNames(t int) []string {
 	case KCtx:
 		return []string{"context.Context"}
 	case KRaw:
-		return tt.RawNames
+		// the recorded names plus every exported identifier the expression
+		// mentions (GBox[GBox[int]] -> GBox): a diagnostic may name any of them
+		ns := append([]string{}, tt.RawNames...)
+		for _, id := range regexp.MustCompile(`\b[A-Z][A-Za-z0-9_]*`).FindAllString(tt.Raw, -1) {
+			dup := false
+			for _, n := range ns {
+				if n == id {
+					dup = true
+				}
+			}
+			if !dup {
+				ns = append(ns, id)
+			}
+		}
+		return ns
 	}
 	return nil
 }
